@@ -101,6 +101,35 @@ def ttt_tensor(ctx, case):
                f"selfdims={case['selfdims']} otherdims={case['otherdims']}")
 
 
+def _enum_ttt(tier):
+    import itertools
+
+    pairs = [((2, 3), (3, 2)), ((2, 3, 2), (3, 2, 4)), ((3,), (2, 3)), ((2, 2), (2, 2)), ((2, 1, 3), (1, 3))]
+    if tier == "thorough":
+        pairs += [((2, 3, 4), (4, 3, 2)), ((2, 3, 2, 3), (3, 2)), ((1, 1), (1,)), ((2, 2, 2), (2, 2, 2))]
+    for s1, s2 in pairs:
+        X = cm.fixed_holder("tensor", s1, salt=1)
+        Y = cm.fixed_holder("tensor", s2, salt=2)
+        if ref.prod(s1) * ref.prod(s2) <= 256:
+            yield dict(X=X, Y=Y, selfdims=None, otherdims=None, mode="outer", scalar_form=False)
+        for k in range(1, min(len(s1), len(s2)) + 1):
+            for sd in itertools.permutations(range(len(s1)), k):
+                for od in itertools.permutations(range(len(s2)), k):
+                    if all(s1[a] == s2[b] for a, b in zip(sd, od)):
+                        mode = "full" if k == len(s1) == len(s2) else "pair"
+                        yield dict(X=X, Y=Y, selfdims=list(sd), otherdims=list(od), mode=mode, scalar_form=False)
+                        if k == 1:
+                            yield dict(X=X, Y=Y, selfdims=list(sd), otherdims=list(od), mode=mode, scalar_form=True)
+                        if list(sd) == list(od):
+                            yield dict(X=X, Y=Y, selfdims=list(sd), otherdims=None, mode="same", scalar_form=False)
+
+
+@cell("C02/ttt/enumerated", enum=_enum_ttt, shards=(2, 8))
+def ttt_enumerated(ctx, case):
+    """every ordered choice of matching (selfdims, otherdims) for fixed pairs of non-cubical tensors"""
+    ttt_tensor(ctx, case)
+
+
 # --------------------------------------------------------------------------
 # innerprod: every supported ordered pair of classes
 # --------------------------------------------------------------------------
@@ -154,7 +183,8 @@ def _enum_inner(tier):
     shapes = [(3,), (2, 3), (3, 2, 4), (2, 1, 3)]
     if tier == "thorough":
         shapes += [(1,), (1, 1), (2, 3, 2, 4)]
-    kinds = ("tensor", "sptensor", "sptensor-thin", "ktensor", "ttensor-dense", "ttensor-sparse", "sumtensor")
+    kinds = ("tensor", "sptensor", "sptensor-thin", "sptensor-one", "sptensor-empty", "ktensor", "ttensor-dense",
+             "ttensor-sparse", "sumtensor")
     for sh in shapes:
         for lk in kinds:
             for rk in kinds:
@@ -248,6 +278,34 @@ cell("C02/scale/tensor", strategy=_scale_strategy("tensor"), quick=500, thorough
 cell("C02/scale/sptensor", strategy=_scale_strategy("sptensor"), quick=600, thorough=12000, shards=(2, 8))(scale_body)
 
 
+def _enum_scale(tier):
+    import itertools
+
+    shapes = [(3,), (2, 3), (3, 2, 4), (2, 1, 3)]
+    if tier == "thorough":
+        shapes += [(1, 1), (4, 3, 2), (2, 3, 2, 4)]
+    for sh in shapes:
+        N = len(sh)
+        for hk in ("tensor", "sptensor", "sptensor-thin", "sptensor-one", "sptensor-empty"):
+            h = cm.fixed_holder(hk, sh, salt=N + 5)
+            for k in range(1, N + 1):
+                for dims in itertools.permutations(range(N), k):
+                    fshape = [sh[d] for d in sorted(dims)]
+                    fdata = cm._det_values(ref.prod(fshape), k + 1)
+                    for fkind in (("ndarray", "tensor") if hk == "tensor" else ("ndarray", "tensor", "sptensor")):
+                        if fkind == "ndarray" and hk != "tensor" and k > 1:
+                            continue
+                        yield dict(X=h, dims=list(dims), dform="int" if k == 1 and dims[0] % 2 else "list", fkind=fkind,
+                                   fshape=fshape, fdata=fdata, forder="reverse", fpattern="some")
+
+
+@cell("C02/scale/enumerated", enum=_enum_scale, shards=(2, 8))
+def scale_enumerated(ctx, case):
+    """every ordered mode subset x every factor class on fixed shapes, dense and sparse holders including the
+    one-nonzero and no-nonzero ones"""
+    scale_body(ctx, case)
+
+
 # --------------------------------------------------------------------------
 # mask
 # --------------------------------------------------------------------------
@@ -318,3 +376,38 @@ def mask_body(ctx, case):
 cell("C02/mask/tensor", strategy=_mask_strategy("tensor"), quick=400, thorough=8000, shards=(2, 8))(mask_body)
 cell("C02/mask/sptensor", strategy=_mask_strategy("sptensor"), quick=600, thorough=12000, shards=(2, 8))(mask_body)
 cell("C02/mask/ktensor", strategy=_mask_strategy("ktensor"), quick=400, thorough=8000, shards=(2, 8))(mask_body)
+
+
+def _enum_mask(tier):
+    shapes = [(3,), (2, 3), (3, 2, 2)]
+    if tier == "thorough":
+        shapes += [(1,), (1, 1), (2, 3, 2, 2)]
+    for sh in shapes:
+        n = ref.prod(sh)
+        allsubs = [list(x) for x in ref.all_subs_F(sh)]
+        wsets = {
+            "all": allsubs,
+            "none": [],
+            "first": allsubs[:1],
+            "last": allsubs[-1:],
+            "even": allsubs[0::2],
+            "odd": allsubs[1::2],
+        }
+        small = [max(1, x - 1) for x in sh]
+        wsets_small = [list(x) for x in ref.all_subs_F(small)]
+        for hk in ("tensor", "sptensor", "sptensor-thin", "sptensor-one", "sptensor-empty", "ktensor"):
+            h = cm.fixed_holder(hk, sh, salt=len(sh) + 4)
+            wkinds = MASK_W["sptensor" if hk.startswith("sptensor") else hk]
+            for wk in wkinds:
+                for name, ws in wsets.items():
+                    for order in (("sorted", "reverse") if wk == "sptensor" and len(ws) > 1 else ("sorted",)):
+                        yield dict(X=h, wkind=wk, wshape=list(sh), wsubs=ws[::-1] if order == "reverse" else ws,
+                                   worder=order, wpattern=name)
+                yield dict(X=h, wkind=wk, wshape=small, wsubs=wsets_small, worder="sorted", wpattern="all")
+
+
+@cell("C02/mask/enumerated", enum=_enum_mask, shards=(2, 8))
+def mask_enumerated(ctx, case):
+    """fixed holders (dense, sparse with many / one / no nonzeros, Kruskal) x masks all / none / first / last /
+    alternating / smaller-than-data, sparse masks stored forwards and backwards"""
+    mask_body(ctx, case)
